@@ -1,6 +1,6 @@
 import FlytModel.Generated.IR
 import FlytModel.Expected.IR
-/-! The translation of `BatchNodeBuilder_Exec` from the CURRENT source is, term for term, the IR the refinement theorems are about. -/
+/-! The translation of `BatchNodeBuilder_Exec` from the CURRENT source is, term for term, the expected IR. -/
 namespace Flyt.Tie
 theorem BatchNodeBuilder_Exec : Flyt.Generated.IR.BatchNodeBuilder_Exec = Flyt.Expected.IR.BatchNodeBuilder_Exec := rfl
 end Flyt.Tie
